@@ -5,7 +5,7 @@ from verif.core import Infra
 META = dict(
     technique="TLA+ state machine of the net/http ResponseWriter contract (HTTPWriter.tla) explored by TLC over all handler programs of <= N calls; every program replayed three-way: spec prediction vs net/http server vs fasthttpadaptor.NewFastHTTPHandler behind a fasthttp server (B1); TLC-enumerated valid request byte strings parsed by http.ReadRequest (oracle) and by ConvertRequest through a fasthttp server (B3, differential)",
     design_ref="DESIGN.md §4 C36",
-    text="HTTPWriter.tla: WriteHeader(1xx) informs without committing, the first other WriteHeader (or Write/Flush, as 200) commits status and snapshots the header map, later calls are ignored, no-body statuses drop writes, Content-Type is sniffed when the head leaves with body bytes. TLC enumerates all programs over {WriteHeader 103/200/204/404/500, Header.Add X-A v1/v2, Set Content-Type, Write a/b, empty Write, Flush} and prints the predicted final response; the harness runs each program behind net/http and behind the adaptor, reads both connections to EOF and compares final status, X-A values, Content-Type and body. A disagreement between the specification and net/http is an infrastructure error (exit 2), between the adaptor and net/http a violation. HTTPAdaptorHist.tla adds histories: every schedule of serve/read events of K calls through ONE adaptor handler x body size classes around the 32 KiB pooled buffer (a served, unread response owns its body: Isolation); each call runs a drawn program with its own body bytes and is compared with its own net/http reference. Requests: 17664 valid requests from a token menu (7 methods, 6 targets incl. absolute-form, HTTP/1.0 and 1.1, repeated / lower-case / padded / empty header fields, Content-Length and chunked bodies).",
+    text="HTTPWriter.tla: WriteHeader(1xx) informs without committing, the first other WriteHeader (or Write/Flush, as 200) commits status and snapshots the header map, later calls are ignored, no-body statuses drop writes, Content-Type is sniffed when the head leaves with body bytes. TLC enumerates all programs over {WriteHeader 100/101/102/103/199/200/204/304/404/500, Header.Add X-A v1/v2, Set Content-Type, Write a/b, empty Write, Flush} and prints the predicted final response; the harness runs each program behind net/http and behind the adaptor, reads both connections to EOF and compares final status, X-A values, Content-Type and body. A disagreement between the specification and net/http is an infrastructure error (exit 2), between the adaptor and net/http a violation. HTTPAdaptorHist.tla adds histories: every schedule of serve/read events of K calls through ONE adaptor handler x body size classes around the 32 KiB pooled buffer (a served, unread response owns its body: Isolation); each call runs a drawn program with its own body bytes and is compared with its own net/http reference. Requests: 20480 valid requests from a token menu (5 methods, 5 targets incl. absolute-form, HTTP/1.0 and 1.1, repeated / mixed-case-repeated / lower-case well-known / padded / empty header fields, Content-Length and chunked bodies) x server configuration (header names normalized, or kept as received: Server.DisableHeaderNamesNormalizing).",
     note="Trusted: net/http as the reference implementation of its own contract (the TLA+ model is checked against it on every program), http.ReadResponse as the client-side parser. Content-Type is compared when net/http sends one; fasthttp's server-default Content-Type on responses where net/http sends none is not handler behaviour. Trailers, Hijack and panics are out of scope (property text).",
 )
 
@@ -100,10 +100,10 @@ def run(ctx):
     ctx.extra["programs_exhaustive_upto_len"] = n
     ctx.extra["programs_exhaustive"] = nex
     ctx.extra["request_vectors_total"] = total
-    ctx.rule = ("program case = one handler program run on both servers (all programs of <= %d calls over 12 ops + seeded longer ones); history case = one serve/read schedule of K calls x size classes x one draw of programs (non-trivial = calls overlap); "
+    ctx.rule = ("program case = one handler program run on both servers (all programs of <= %d calls over 17 ops + seeded longer ones); history case = one serve/read schedule of K calls x size classes x one draw of programs (non-trivial = calls overlap); "
                 "non-trivial = >= 2 calls or a 1xx / post-commit header change; request case = one generated request; non-trivial = "
                 "has optional header fields, a body, HTTP/1.0 or an absolute-form target" % n)
-    ctx.assumptions = ["op menu: WriteHeader{103,200,204,404,500}, Header.Add X-A v1/v2, Set Content-Type, Write a/b, empty Write (nil / []byte{} / io.WriteString \"\"), Flush",
+    ctx.assumptions = ["op menu: WriteHeader{100,101,102,103,199,200,204,304,404,500}, Header.Add X-A v1/v2, Set Content-Type, Write a/b, empty Write (nil / []byte{} / io.WriteString \"\"), Flush",
                        "histories: K = 3 (quick) / 4 (thorough) calls through one adaptor handler, served in order, read in any order, body token sizes {1, 20000, 40000} bytes; handler called directly on each call's own RequestCtx",
                        "one request per connection (Connection: close), GET for handler programs",
                        "quick tier samples 2500 of the %d request vectors by seed" % total]
